@@ -235,6 +235,9 @@ struct State {
     /// lock across hook points). Blocked threads are not runnable until they show up again.
     blocked: Vec<bool>,
     ktid: Vec<i32>,
+    /// the thread is inside the scheduler's own park() (waiting for the baton or for the
+    /// scheduler mutex): asleep, but not on a lock of the code under test
+    in_sched: Vec<bool>,
     harness_wait: Vec<bool>,
     progress: u64,
     last_progress_seen: u64,
@@ -248,6 +251,8 @@ struct State {
 pub struct Scheduler {
     m: Mutex<State>,
     cvs: Vec<Condvar>,
+    /// set by a client thread while it is queued on the scheduler's own mutex
+    entering: Vec<std::sync::atomic::AtomicBool>,
     pub n: usize,
 }
 
@@ -324,6 +329,7 @@ impl Scheduler {
                 parked_at_hook: vec![false; n],
                 blocked: vec![false; n],
                 ktid: vec![0; n],
+                in_sched: vec![true; n],
                 harness_wait: vec![false; n],
                 progress: 0,
                 last_progress_seen: 0,
@@ -334,8 +340,20 @@ impl Scheduler {
                 ev: Fnv::default(),
             }),
             cvs: (0..n).map(|_| Condvar::new()).collect(),
+            entering: (0..n).map(|_| std::sync::atomic::AtomicBool::new(false)).collect(),
             n,
         }
+    }
+
+    /// Lock the scheduler state on behalf of client thread `tid`, flagging the wait so that
+    /// the stall detector does not mistake "queued on the scheduler mutex" for "blocked on a
+    /// lock of the code under test".
+    fn lock_as(&self, tid: usize) -> std::sync::MutexGuard<'_, State> {
+        use std::sync::atomic::Ordering::SeqCst;
+        self.entering[tid].store(true, SeqCst);
+        let g = self.lock();
+        self.entering[tid].store(false, SeqCst);
+        g
     }
 
     fn lock(&self) -> std::sync::MutexGuard<'_, State> {
@@ -362,6 +380,13 @@ impl Scheduler {
     /// taken away from it and given to a runnable thread, so that code which legitimately
     /// serialises searches with a lock can still be scheduled.
     fn park<'a>(&'a self, tid: usize, mut g: std::sync::MutexGuard<'a, State>) -> std::sync::MutexGuard<'a, State> {
+        g.in_sched[tid] = true;
+        g = self.park_inner(tid, g);
+        g.in_sched[tid] = false;
+        g
+    }
+
+    fn park_inner<'a>(&'a self, tid: usize, mut g: std::sync::MutexGuard<'a, State>) -> std::sync::MutexGuard<'a, State> {
         while g.current != tid {
             // one designated watcher (the thread that handed the baton over) ticks fast
             let tick = if g.prev_holder == tid || g.prev_holder == NOBODY { STALL_TICK } else { Duration::from_millis(20) };
@@ -374,7 +399,9 @@ impl Scheduler {
                 break;
             }
             if to.timed_out() {
-                if let Some(next) = g.check_stall(self.n) {
+                let cur = g.current;
+                let cur_entering = cur < self.n && self.entering[cur].load(std::sync::atomic::Ordering::SeqCst);
+                if let Some(next) = g.check_stall(self.n, cur_entering) {
                     self.cvs[next].notify_one();
                 }
                 if g.last_progress_at.elapsed() > WATCHDOG {
@@ -387,7 +414,7 @@ impl Scheduler {
 
     /// Block until this thread holds the baton (thread start).
     pub fn wait_turn(&self, tid: usize) {
-        let mut g = self.lock();
+        let mut g = self.lock_as(tid);
         g.ktid[tid] = gettid();
         let _g = self.park(tid, g);
     }
@@ -395,25 +422,25 @@ impl Scheduler {
     /// The calling thread is about to block in a wait owned by the harness (pristine oracle
     /// pipe): that is not a lock of the code under test.
     pub fn set_harness_wait(&self, tid: usize, v: bool) {
-        let mut g = self.lock();
+        let mut g = self.lock_as(tid);
         g.harness_wait[tid] = v;
         g.note_progress();
     }
 
     /// How many other threads are parked mid-search on `obj` right now.
     pub fn others_midsearch(&self, tid: usize, obj: u32) -> usize {
-        let g = self.lock();
+        let g = self.lock_as(tid);
         (0..self.n).filter(|&t| t != tid && g.parked_at_hook[t] && g.midsearch[t] == obj).count()
     }
 
     pub fn set_midsearch(&self, tid: usize, obj: u32) {
-        let mut g = self.lock();
+        let mut g = self.lock_as(tid);
         g.midsearch[tid] = obj;
     }
 
     /// A decision point: hook call (site != 0) or op boundary (site == 0).
     pub fn decision_point(&self, tid: usize, site_id: u32, aux: usize, look_depth: u32, obj: u32) {
-        let mut g = self.lock();
+        let mut g = self.lock_as(tid);
         if g.current != tid {
             // we were presumed blocked on a lock and lost the baton; we are back
             g.blocked[tid] = false;
@@ -476,7 +503,7 @@ impl Scheduler {
 
     /// Thread exit: hand the baton to someone else (forced switch).
     pub fn finish(&self, tid: usize) {
-        let mut g = self.lock();
+        let mut g = self.lock_as(tid);
         if g.current != tid {
             g.blocked[tid] = false;
             g.note_progress();
@@ -523,7 +550,7 @@ impl State {
     /// Called by a parked thread on a timer tick. If the baton holder is asleep in the kernel
     /// (two ticks in a row, no decision point in between, not in a harness-owned wait), take
     /// the baton away from it. Returns the thread to wake.
-    fn check_stall(&mut self, n: usize) -> Option<usize> {
+    fn check_stall(&mut self, n: usize, holder_entering: bool) -> Option<usize> {
         let b = self.current;
         if b == NOBODY || b >= n {
             return None;
@@ -534,7 +561,11 @@ impl State {
             self.stall_ticks = 0;
             return None;
         }
-        if self.harness_wait[b] {
+        if self.harness_wait[b] || self.in_sched[b] || holder_entering {
+            // asleep in a wait that belongs to the harness (pristine-oracle pipe, or it has not
+            // yet come back out of park(): it may be queued on the scheduler mutex this very
+            // thread holds) - not a lock of the code under test
+            self.stall_ticks = 0;
             return None;
         }
         match thread_state(self.ktid[b]) {
